@@ -59,3 +59,5 @@ if os.path.exists(note): shutil.copy(note, os.path.join(out, "note.md"))
 meta["needs"] = open(note).read()[:1500] if os.path.exists(note) else ""
 json.dump(meta, open(os.path.join(out, "meta.json"), "w"), indent=1)
 print("banked", out, "detected_by", meta.get("detected_by"))
+# the evidence files written while a seeded change was applied describe the changed tree: put back the committed ones
+sh(f"git -C {ROOT} checkout -- evidence")
